@@ -11,7 +11,9 @@ import pickle
 import sys
 import traceback
 
-REPO_PKG = os.path.realpath("/repo/cincoconfig") + os.sep
+import cincoconfig  # noqa: E402  (whatever checkout is first on the path)
+
+REPO_PKG = os.path.realpath(os.path.dirname(cincoconfig.__file__)) + os.sep
 
 
 def run(path: str, trace: bool) -> dict:
